@@ -185,6 +185,17 @@ def late_handshake_specs():
              "steps": [data(0, 20), data(1, 60), {"op": "rebind"}, data(0, 21), data(1, 61), data(0, 22), {"op": "rebind"}, data(1, 62), data(0, 23)],
              "ep": scenario.default_ep(60 + j, v6=v6)}
         out.append({"conns": [q], "order": [0], "tseed": 40 + j})
+    # a QUIC stream that carried data is reset (a cancelled request), other streams go on: what was exported stays
+    fr = lambda d, frames: {"op": "data", "d": d, "pk": [{"fr": frames, "gap": 0, "pnl": 0}]}
+    for j, (who, sid) in enumerate(((0, 0), (1, 0), (0, 4), (1, 4))):
+        q = {"kind": "quic", "seed": 8930 + j, "suite": [0x1301, 0x1303][j % 2],
+             "steps": [fr(0, [["stream", 0, 20, None, False, True, None]]), fr(1, [["stream", 0, 60, None, False, True, None]]),
+                       fr(0, [["stream", 4, 21, None, False, True, None]]), fr(1, [["stream", 4, 61, None, False, True, None]]),
+                       fr(who, [["reset", sid, 7, 20, None], ["stream", 8, 22, None, False, True, None]]),
+                       fr(1 - who, [["stop", sid, 7, None], ["stream", 8, 62, None, False, True, None]]),
+                       fr(0, [["stream", 4, 23, 21, False, True, None]]), fr(1, [["stream", 4, 63, 61, False, True, None]])],
+             "ep": scenario.default_ep(64 + j, v6=bool(j % 2))}
+        out.append({"conns": [q], "order": [0], "tseed": 44 + j})
     # TLS 1.3 with a HelloRetryRequest (with and without the compatibility ChangeCipherSpec), with and without -a: whatever is exported
     # (not claimed by C01) only ever grows
     for j, (hrr, a) in enumerate(((1, False), (2, False), (1, True), (2, True))):
